@@ -205,60 +205,80 @@ theorem parseTerm_of_ask (r : Req) (t : Option (Bytes × Bytes × Bool)) (h : as
 
 /-! ### the term and status criteria mean what the documentation says -/
 
-theorem containsFoldGo_short (sub : Bytes) : ∀ s : Bytes, s.length < sub.length → containsFoldGo sub s = false
-  | [], _ => rfl
-  | b :: rest, h => by unfold containsFoldGo; rw [if_pos h]
+theorem hasPrefixFoldR_eq : ∀ (rs ts : List Nat),
+    hasPrefixFoldR rs ts = (rs.take ts.length == ts && decide (ts.length ≤ rs.length))
+  | _, [] => by simp [hasPrefixFoldR]
+  | [], b :: t => by simp [hasPrefixFoldR]
+  | a :: s, b :: t => by
+    simp only [hasPrefixFoldR, hasPrefixFoldR_eq s t, List.length_cons, List.take_succ_cons]
+    rw [Bool.eq_iff_iff]
+    simp only [Bool.and_eq_true, beq_iff_eq, decide_eq_true_eq, List.cons.injEq]
+    constructor
+    · rintro ⟨h1, h2, h3⟩; exact ⟨⟨h1, h2⟩, by omega⟩
+    · rintro ⟨⟨h1, h2⟩, h3⟩; exact ⟨h1, h2, by omega⟩
 
-theorem containsSpec_nil (sub : Bytes) (h : sub ≠ []) : containsSpec [] sub = false := by
-  have : 0 < sub.length := List.length_pos_iff.mpr h
-  unfold containsSpec
-  simp only [List.length_nil, Nat.zero_add, List.range_one, List.any_cons, List.any_nil, Bool.or_false,
-    Bool.and_eq_false_iff, decide_eq_false_iff_not]
-  right; omega
+def infixAt (rs ts : List Nat) : Bool :=
+  (List.range (rs.length + 1)).any (fun i => (rs.drop i).take ts.length == ts && decide (i + ts.length ≤ rs.length))
 
-theorem containsSpec_cons (b : Nat) (rest sub : Bytes) :
-    containsSpec (b :: rest) sub =
-      ((equalFold ((b :: rest).take sub.length) sub && decide (sub.length ≤ (b :: rest).length)) ||
-        containsSpec rest sub) := by
-  unfold containsSpec
-  rw [show (b :: rest).length + 1 = (rest.length + 1) + 1 from rfl, List.range_succ_eq_map]
+theorem infixAt_cons (a : Nat) (rs ts : List Nat) :
+    infixAt (a :: rs) ts =
+      (((a :: rs).take ts.length == ts && decide (ts.length ≤ (a :: rs).length)) || infixAt rs ts) := by
+  unfold infixAt
+  rw [show (a :: rs).length + 1 = (rs.length + 1) + 1 from rfl, List.range_succ_eq_map]
   simp only [List.any_cons, List.any_map, List.drop_zero, Nat.zero_add]
   congr 1
   congr 1
-  funext a
+  funext i
   simp only [Function.comp, Nat.succ_eq_add_one, List.drop_succ_cons, List.length_cons]
   congr 1
   rw [Bool.eq_iff_iff]; simp; omega
 
-theorem containsFoldGo_cons (sub : Bytes) (b : Nat) (rest : Bytes) :
-    containsFoldGo sub (b :: rest) =
-      if (b :: rest).length < sub.length then false
-      else if equalFold ((b :: rest).take sub.length) sub then true
-      else containsFoldGo sub rest := rfl
+theorem containsRunes_eq (ts : List Nat) (hts : ts ≠ []) : ∀ rs, containsRunes ts rs = infixAt rs ts
+  | [] => by
+    have : 0 < ts.length := List.length_pos_iff.mpr hts
+    simp only [containsRunes, infixAt, List.length_nil, Nat.zero_add, List.range_one, List.any_cons,
+      List.any_nil, Bool.or_false]
+    symm
+    simp only [Bool.and_eq_false_iff, decide_eq_false_iff_not]
+    right; omega
+  | a :: rs => by
+    rw [infixAt_cons, ← containsRunes_eq ts hts rs, containsRunes, hasPrefixFoldR_eq]
 
-theorem containsFoldGo_eq_spec (sub : Bytes) (h : sub ≠ []) : ∀ s : Bytes, containsFoldGo sub s = containsSpec s sub
-  | [] => by rw [containsSpec_nil sub h]; rfl
-  | b :: rest => by
-    rw [containsSpec_cons, ← containsFoldGo_eq_spec sub h rest, containsFoldGo_cons]
-    by_cases hlt : (b :: rest).length < sub.length
-    · rw [if_pos hlt]
-      have h1 : decide (sub.length ≤ (b :: rest).length) = false := by simp; omega
-      have h2 : containsFoldGo sub rest = false := containsFoldGo_short sub rest (by simp at hlt ⊢; omega)
-      rw [h1, h2]; simp
-    · rw [if_neg hlt]
-      have h1 : decide (sub.length ≤ (b :: rest).length) = true := by simp at hlt ⊢; omega
-      rw [h1, Bool.and_true]
-      cases equalFold ((b :: rest).take sub.length) sub <;> simp
+theorem decodeRunes_ne_nil (s : Bytes) (h : s ≠ []) : decodeRunes s ≠ [] := by
+  cases s with
+  | nil => exact absurd rfl h
+  | cons b r => simp [decodeRunes, decodeRunesN]
+
+theorem foldRunes_ne_nil (s : Bytes) (h : s ≠ []) : foldRunes s ≠ [] := by
+  unfold foldRunes
+  intro hh
+  exact decodeRunes_ne_nil s h (List.map_eq_nil_iff.mp hh)
 
 theorem containsFold_eq_spec (s sub : Bytes) : containsFold s sub = containsSpec s sub := by
-  unfold containsFold
+  unfold containsFold containsSpec
   by_cases h : sub.length = 0
   · have hs : sub = [] := List.eq_nil_of_length_eq_zero h
     subst hs
-    simp [containsSpec, equalFold]
+    simp [foldRunes, decodeRunes, decodeRunesN]
     exact ⟨0, by omega, by omega⟩
   · rw [if_neg h]
-    exact containsFoldGo_eq_spec sub (fun hh => h (by simp [hh])) s
+    exact containsRunes_eq _ (foldRunes_ne_nil sub (fun hh => h (by simp [hh]))) _
+
+/-- The declarative relation: the folded term occurs contiguously in the folded field. -/
+theorem infixAt_iff (rs ts : List Nat) : infixAt rs ts = true ↔ ∃ pre post, rs = pre ++ ts ++ post := by
+  unfold infixAt
+  simp only [List.any_eq_true, List.mem_range, Bool.and_eq_true, beq_iff_eq, decide_eq_true_eq]
+  constructor
+  · rintro ⟨i, _, h1, h2⟩
+    refine ⟨rs.take i, (rs.drop i).drop ts.length, ?_⟩
+    have := List.take_append_drop ts.length (rs.drop i)
+    rw [h1] at this
+    rw [List.append_assoc, this, List.take_append_drop]
+  · rintro ⟨pre, post, h⟩
+    refine ⟨pre.length, by rw [h]; simp; omega, ?_, by rw [h]; simp⟩
+    rw [h]
+    simp
+
 
 theorem termMatch_eq_sat (c : Conf) (strict : Bool) (term ascii : Bytes) (e : Entry) :
     termMatch strict term ascii e.cid (clientName c e.cid e.ip) e.host e.ip = termSat c strict term ascii e := by
